@@ -25,23 +25,23 @@ NA = {
 CHECKS = {
  "C11": dict(engine="histsim-fragments", section="3 (C11)",
              technique="deterministic simulation: seeded search over operation histories (incl. failing operations) against a sparse-array reference model, choice-sequence shrinking, exact replay",
-             text="Seeded search over insert/append/extend histories (<=12 operations, positions 0..40 biased to fragment edges, empty chunks, failing operations) on the real Fragments class, compared after every operation with a sparse byte-array model (raise iff occupied, failed operation leaves bytes intact, cursor, rendering). Exploration, not proof: a clean batch is evidence. This component has no schedule, clock or I/O, so only the history/reference-model half of the technique applies.",
+             text="Seeded search over insert/append/extend/cursor-assignment histories (<=12 operations, occasionally up to 60 or after a bulk prefix of thousands of fragments; positions 0..40 biased to fragment edges, or far apart; empty chunks, chunks made of the fill byte or repeating stored bytes, failing operations; one or two live buffers) on the real Fragments class, compared after every operation with a sparse byte-array model (raise iff occupied, failed operation leaves bytes intact, cursor, rendering). Exploration, not proof: a clean batch is evidence. This component has no schedule, clock or I/O, so only the history/reference-model half of the technique applies.",
              note="trusts the 30-line sparse-array model and the reading that an empty chunk may raise or not; Fragments is imported from a snapshot of /repo's working tree"),
  "C17": dict(engine="histsim-auto", section="3 (C17)",
              technique="deterministic simulation: seeded search over per-instance operation histories (set/delete/construct/unpack/pack incl. failing packs) against an {explicit, tracked} reference model, choice-sequence shrinking, exact replay",
-             text="Seeded search over histories of NEW/SET_TRACKED/SET_DESCRIBED/DEL/READ/PACK/UNPACK/REPARSE on 1-6 live packets of freshly defined classes (13 declarations incl. nested, element, chained, recursive and prototype-inherited described fields x six code-generation option sets), compared after every operation with the reference model; the only fault this component can suffer (pack failing after the pre-pack sync ran) is generated deliberately. Exploration, not the exhaustive enumeration the quantifier mentions.",
+             text="Seeded search over histories of NEW/SET_TRACKED/SET_DESCRIBED/DEL/READ/PACK/UNPACK/REPARSE on 1-6 live packets of freshly defined classes (14 declarations incl. nested, element, chained, recursive and prototype-inherited described fields x six code-generation option sets), compared after every operation with the reference model; the only fault this component can suffer (pack failing after the pre-pack sync ran) is generated deliberately. Exploration, not the exhaustive enumeration the quantifier mentions.",
              note="trusts the reference model of Auto semantics (reads explicit value if set else computed; pack serialises what reads); class definitions go through the real metaclass and code generator into a scratch directory"),
  "C13": dict(engine="threadsim", section="3 (C13)",
              technique="deterministic simulation: baton-passed real threads pre-empted at sys.settrace line/opcode events under a seeded scheduler, differential replay against solo twins, aliasing and purity invariants, choice-sequence shrinking, exact replay",
-             text="1-3 actor threads run Chooser-generated scripts (construct, parse valid/malformed, set, append/pop, pack, pack twice, read) on their own packets of 1-3 freshly defined declarations; the scheduler decides every thread switch (whole-operation interleavings and pre-emption inside bisturi frames). Oracles: non-interference vs. the solo twin, no shared mutable sub-object, pack purity. Exploration over seeds.",
+             text="1-3 actor threads run Chooser-generated scripts (construct, parse valid/malformed, set, append/pop, pack, pack twice, read) on their own packets of 1-3 freshly defined declarations out of a pool of 36 (in a quarter of the runs with the library's cache/pool size bounds shrunk to 1-2); the scheduler decides every thread switch (whole-operation interleavings and pre-emption inside bisturi frames). Oracles: non-interference vs. the solo twin, no shared mutable sub-object, pack purity. Exploration over seeds.",
              note="trusts sys.settrace pre-emption points as the granularity of interleaving (line in quick, opcode in part of thorough); the GIL makes single bytecodes atomic, which is also true of real CPython threads"),
  "C15": dict(engine="cachesim-seq", section="3 (C15)",
              technique="deterministic simulation: simulated processes (private module tables) over a real scratch directory behind a file-system interposer with a simulated storage clock; seeded histories of definitions/edits/clock steps/janitor actions; differential oracle against a clean twin plus code-identity invariant; exact replay",
-             text="Histories (<=8 steps) of DEFINE/EDIT/TICK/JANITOR over a family of 17 confusable same-named declarations, in fresh and surviving simulated processes, with bytecode caching on or off and mtime ties/steps decided by the scheduler. After every definition each live class must behave and carry code identical to the same declaration defined on an empty cache. Exploration over seeds.",
+             text="Histories (<=8 steps) of DEFINE/EDIT/TICK/JANITOR over a family of 36 confusable same-named declarations (same-size, option-only, descriptor-only, parameter-only and mirrored-permutation pairs), in fresh and surviving simulated processes, with bytecode caching on or off and mtime ties/steps decided by the scheduler. After every definition each live class must behave and carry code identical to the same declaration defined on an empty cache. Exploration over seeds.",
              note="process boundary, pid and mtime clock are stubs (threads + private sys.modules overlays, utime-stamped simulated clock); CPython's import machinery, the kernel's tmpfs and all of bisturi are real; fidelity cross-checked against real python processes in the thorough tier"),
  "C16": dict(engine="cachesim-conc", section="3 (C16)",
-             technique="deterministic simulation with fault injection: 2-3 simulated processes interleaved at every file-system call by a seeded scheduler, process death before any call and after any byte prefix of a write, simulated storage clock; differential oracle against a clean twin plus code-identity invariant; crash points of the sequential update enumerated exhaustively in the thorough tier; exact replay",
-             text="2-3 simulated processes define identical or different same-named classes concurrently from a drawn prior cache state; every file-system call is a yield point and a possible crash point (torn writes at any byte offset); afterwards 1-2 fault-free later processes define a variant. Every process not itself killed must define its class and run exactly its own declaration's code. Thorough tier additionally enumerates every crash point of the sequential cache update.",
+             technique="deterministic simulation with fault injection: 2-3 simulated processes interleaved at every file-system call by a seeded scheduler, process death before any call and after any byte prefix of a write, file-system calls failing with ENOSPC/EDQUOT/EIO/EACCES/EMFILE/EROFS/ENOLCK while the process carries on, simulated storage clock; differential oracle against a clean twin plus code-identity invariant; crash points and failing calls of the sequential update enumerated exhaustively (a sample of scenarios in the quick tier, all in the thorough tier); exact replay",
+             text="2-3 simulated processes define identical or different same-named classes concurrently from a drawn prior cache state; every file-system call is a yield point and a possible crash point (torn writes at any byte offset); afterwards 1-2 fault-free later processes define a variant. Every process not itself killed (and none of whose own calls were made to fail) must define its class, and every class that got defined must run exactly its own declaration's code. Both tiers additionally enumerate every crash point and every failing call of the sequential cache update (quick: 7 scenarios, thorough: 342).",
              note="as C15; process death is SimCrash raised from the seam plus lock-out of the dead process's later calls; buffering of open().write() is replaced by unbuffered writes split at chooser-chosen offsets (more prefixes than a real 8 KiB buffer shows)"),
 }
 
